@@ -213,6 +213,11 @@ class CommonRD:
 
             if "base" in registration_parameters:
                 set_base = pop_single_arg(registration_parameters, "base")
+                try:
+                    # the links are later resolved against it
+                    urljoin(set_base, "/")
+                except ValueError:
+                    raise error.BadRequest("base is not a usable URI")
 
             if set_lt is not None and self.lt != set_lt:
                 actual_change = True
@@ -435,10 +440,16 @@ def link_format_from_message(message):
         certain_format = message.request.opt.accept
     try:
         if certain_format == ContentFormat.LINKFORMAT:
-            return parse(message.payload.decode("utf8"))
+            links = parse(message.payload.decode("utf8"))
+            for link in links.links:
+                # lookups resolve them against the registration's base
+                urljoin("coap://x/", link.href)
+                if "anchor" in link:
+                    urljoin("coap://x/", link.anchor)
+            return links
         else:
             raise error.UnsupportedMediaType()
-    except (UnicodeDecodeError, link_header.ParseException):
+    except (UnicodeDecodeError, link_header.ParseException, ValueError):
         raise error.BadRequest()
 
 
